@@ -84,9 +84,9 @@ kani_unit("air_parsers", "winter-air", "air/src/proof/mod.rs", "kani/air_parsers
     H("air_ood_two_columns_bounded", ["C06", "C03"], ["OodFrame::read_from", "OodFrame::write_into", "OodFrame::parse", "TraceOodFrame::main_frame", "TraceOodFrame::aux_frame"],
       "read_from + parse::<f64> never panic; the container re-encodes to the same bytes; parse == Ok only if every component has exactly the length its content implies (frame size 2, no trailing bytes) and the frame accessors are in bounds",
       bounded="component lengths fixed: 2 columns, 2 evaluations; every content byte symbolic", timeout=600),
-    H("air_ood_wide_rows_bounded", ["C06", "C03"], ["OodFrame::read_from", "OodFrame::write_into", "OodFrame::parse", "TraceOodFrame::main_frame", "TraceOodFrame::aux_frame"],
-      "read_from + parse::<f64> never panic; the container re-encodes to the same bytes; parse == Ok only if every component has exactly the length its content implies (frame size 2, no trailing bytes) and the frame accessors are in bounds",
-      bounded="component lengths fixed: trace-state vector of 33 bytes for a 1-column trace (rows k times wider than the trace for a frame-size byte of 2k - the verifier would take the surplus for an auxiliary frame); every content byte symbolic", timeout=600),
+    H("air_ood_wide_rows_bounded", ["C06", "C03"], ["OodFrame::read_from", "OodFrame::parse"],
+      "a trace-state vector of 4 elements for a 1-column trace without auxiliary segment is refused when its frame-size byte is 4 or 1 (a frame size of 4 would yield rows twice as wide as the trace, which the verifier takes for an auxiliary frame and then panics on the missing auxiliary randomness)",
+      bounded="a concrete input: component lengths and element bytes fixed (33 / 1 / 8 bytes; 1 main column); frame-size byte 4 or 1", timeout=600),
     H("air_table_from_bytes_shape_contract", ["C06", "C12"], ["Table::from_bytes", "RowIterator::next"],
       "forall rows, cols in 1..=255 (all shapes the options / trace-info constructors admit) on an 8-byte input: never panics"),
     H("air_table_rows_bounded", ["C06", "C12"], ["Table::from_bytes", "Table::get_row", "Table::rows"], "2x2 table: rows are in bounds, iterator yields exactly 2 rows", bounded="2 x 2 elements"),
@@ -100,3 +100,11 @@ native_unit("security_native", "winter-air", "air", "native/security_bounded.rs"
             "neither the proven nor the conjectured estimate decreases when the number of queries, the grinding factor, the extension degree or the hash function's collision resistance grows (everything else fixed), and neither exceeds the collision resistance",
             "NATIVE EXECUTION, not a proof (floating-point code: CBMC has no faithful libm): f62 / f64 / f128 x extension degrees x trace lengths 2^3, 2^8, 2^12, 2^16, 2^20 x blowup 2, 4, 8, 16, 64 x folding 2, 4, 8, 16 x remainder degree 0, 7, 31 x queries 1..=255 x grinding 0..=32 x collision resistance 96 / 128",
             timeout=1800)
+
+
+verus_unit("divisorv", "divisorv", ["C16"], [
+    "ConstraintDivisor::from_assertion (every power-of-two trace length, every validated single / periodic / sequence assertion: the divisor is x^k - g^(k * first_step) with k the number of asserted steps and no exemptions; k * first_step stays inside the trace domain)",
+    "divisor::get_trace_domain_value_at (g^step for the trace-domain generator; its debug assertion holds at every call)",
+    "ConstraintDivisor::new",
+    "ConstraintDivisor::evaluate_at (the in-order product of the numerator terms x^degree - constant divided by the exemption product)",
+    "theorem_zero_set (specification level: on the trace domain the numerator of from_assertion vanishes at step i exactly when i is an asserted step - i == first_step, resp. i mod stride == first_step - for every trace length, relative to 'g has order exactly n' and the monoid laws, both hypotheses)"])
